@@ -556,6 +556,13 @@ theorem C15_size_bounds (cfg : Cfg) (ops : List Op) :
   have h := runOps_sizeInv (cfg := cfg) ops {} (SizeInv.init cfg)
   exact ⟨h.nonneg, h.bound, h.sum⟩
 
+/-- **object count.**  In every history the number of resources (URIs) that hold a stored response is
+    zero or below `maxobjects` (what `len(self.store) < self.maxobjects` in `put` provides: it bounds
+    resources, not variants, and placeholder-only resources do not count). -/
+theorem C15_object_count (cfg : Cfg) (ops : List Op) :
+    countRes (runOps cfg {} ops).cache.store = 0 ∨ countRes (runOps cfg {} ops).cache.store < cfg.maxobjects :=
+  runOps_countInv (cfg := cfg) ops {} (Or.inl rfl)
+
 theorem runOps_inv (hPQ : ∀ r p, Q r p → P r.uri (sortDesc p.vary)) (ops : List Op)
     (hops : ∀ r p, Op.req r p ∈ ops → Q r p) (w : World) (L : List Ev) (hI : Inv cfg P Q w L) :
     Inv cfg P Q (runOps cfg w ops) (L ++ exec cfg w ops) := by
